@@ -329,25 +329,32 @@ def explore(make: Callable[[Execution], Tuple[Sequence[Callable[[], None]], Any]
             deadlocks += 1
         max_points = max(max_points, ex.points)
         on_exec(ex, ctx)
-        tr = ex.trace
-        pcs = []
-        pc = 0
-        for cur, en, ch, _ in tr:
-            pcs.append(pc)
-            if cur is not None and cur in en and ch != cur:
-                pc += 1
-        for i in range(len(tr) - 1, len(prefix) - 1, -1):
-            cur, en, ch, loc = tr[i]
-            for alt in en:
-                if alt == ch:
-                    continue
-                cost = pcs[i] + (1 if (cur is not None and cur in en and alt != cur) else 0)
-                if cost <= bound:
-                    child = [(c, (cu, e, l)) for (cu, e, c, l) in tr[:i]]
-                    child.append((alt, (cur, en, loc)))
-                    stack.append(child)
+        stack.extend(children(ex.trace, len(prefix), bound))
     return {"executions": n, "by_preemptions": by_pre, "deadlocks": deadlocks, "max_points": max_points,
             "capped": capped}
+
+
+def children(tr: Sequence[Step], plen: int, bound: int) -> List[List[Tuple[int, Any]]]:
+    """the child prefixes of one finished execution: every alternative choice at a step beyond the replayed
+    prefix whose preemption count stays within the bound (each schedule is generated exactly once)"""
+    out: List[List[Tuple[int, Any]]] = []
+    pcs = []
+    pc = 0
+    for cur, en, ch, _ in tr:
+        pcs.append(pc)
+        if cur is not None and cur in en and ch != cur:
+            pc += 1
+    for i in range(len(tr) - 1, plen - 1, -1):
+        cur, en, ch, loc = tr[i]
+        for alt in en:
+            if alt == ch:
+                continue
+            cost = pcs[i] + (1 if (cur is not None and cur in en and alt != cur) else 0)
+            if cost <= bound:
+                child = [(c, (cu, e, l)) for (cu, e, c, l) in tr[:i]]
+                child.append((alt, (cur, en, loc)))
+                out.append(child)
+    return out
 
 
 def run_schedule(make, nthreads: int, files: Sequence[str], choices: Sequence[int]) -> Tuple[Execution, Any]:
